@@ -146,26 +146,36 @@ def idm_spec(prop, tier):
         if q:
             return (idm_runs((1,), ("basic", "over"), 4) + idm_runs((2,), ("basic", "over1"), 4) + idm_runs((2,), ("over",), 2)
                     + idm_runs((3,), ("basic", "over1"), 2) + idm_runs((4,), ("basic",), 2)
-                    + idm_runs((1,), ("churn", "stay"), 3) + idm_runs((2,), ("churn", "stay"), 2))
-        return (idm_runs((1,), ("basic", "over", "reuse"), 5, 600, 300) + idm_runs((2,), ("basic", "over1"), 5, 600, 300)
+                    + idm_runs((1,), ("churn", "stay"), 3) + idm_runs((2,), ("churn", "stay"), 2) + caps_runs(QUICK_CAPS))
+        return (caps_runs(THOROUGH_CAPS) + idm_runs((1,), ("basic", "over", "reuse"), 5, 600, 300) + idm_runs((2,), ("basic", "over1"), 5, 600, 300)
                 + idm_runs((2, 3), ("basic", "over", "reuse"), 3, 600, 300) + idm_runs((4,), ("basic", "over1"), 2, 600, 300)
                 + idm_runs((1, 2), ("churn", "stay"), 4, 900, 900) + idm_runs((3,), ("churn", "stay"), 2, 600, 600))
     if prop == "C14":
         if q:
             return (idm_runs((1, 2), ("over", "reuse", "salted", "pinned"), 3) + idm_runs((3,), ("over1", "reuse1", "salted", "pinned"), 2)
-                    + idm_runs((1,), ("churn", "stay"), 3) + idm_runs((2,), ("churn", "stay"), 2))
-        return (idm_runs((1, 2, 3), ("over", "reuse", "big", "salted", "pinned"), 3, 600, 300)
+                    + idm_runs((1,), ("churn", "stay"), 3) + idm_runs((2,), ("churn", "stay"), 2) + caps_runs(QUICK_CAPS))
+        return (caps_runs(THOROUGH_CAPS) + idm_runs((1, 2, 3), ("over", "reuse", "big", "salted", "pinned"), 3, 600, 300)
                 + idm_runs((4,), ("over1", "reuse1", "salted"), 2, 600, 300)
                 + idm_runs((1, 2), ("churn", "stay"), 3, 900, 900) + idm_runs((3,), ("churn", "stay"), 2, 600, 600))
     if prop == "C15":
         if q:
             return (idm_runs((1, 2), ("basic", "over", "reuse"), 3) + idm_runs((3,), ("basic", "over1", "reuse1"), 2)
                     + idm_runs((1,), ("churn", "stayh"), 3) + idm_runs((2,), ("churn", "stayh"), 2)
-                    + [ep(1, ("hb",), 3), ep(2, ("hb",), 2)])
+                    + caps_runs(QUICK_CAPS[:3]) + [ep(1, ("hb",), 3), ep(2, ("hb",), 2)])
         return (idm_runs((1, 2, 3), ("basic", "over", "reuse", "big"), 3, 600, 300) + idm_runs((4,), ("basic", "reuse1"), 2, 600, 300)
                 + idm_runs((1, 2), ("churn", "stayh"), 3, 900, 900)
                 + [ep(1, ("hb",), 5, 600, 300), ep(2, ("hb",), 3, 600, 300)])
     return None
+
+
+QUICK_CAPS = (5, 8, 33, 64, 65, 129)
+THOROUGH_CAPS = (5, 6, 7, 8, 9, 10, 15, 16, 17, 31, 32, 33, 63, 64, 65, 100, 127, 128, 129, 130, 200, 257)
+
+
+def caps_runs(caps, budget=120.0, job_budget=60.0):
+    """sequential claim / release / oversubscription histories at larger capacities (harness/idm_caps.cpp)"""
+    return [dict(h={"kind": "idmcaps", "cap": c}, families=["all"], bound=0, budget=budget, job_budget=job_budget,
+                 label="sequential claim/release histories, every probe-start pattern") for c in caps]
 
 
 IDM_PROPS = {"C05", "C14", "C15"}
@@ -241,6 +251,8 @@ def setup():
             e1.harness_binary(L(lk, retry))
     for cap in (1, 2, 3, 4):
         e1.harness_binary({"kind": "idm", "cap": cap})
+    for cap in QUICK_CAPS:
+        e1.harness_binary({"kind": "idmcaps", "cap": cap})
     for cap in (1, 2, 3):
         e1.harness_binary({"kind": "epoch", "cap": cap})
     e3.binary()
